@@ -312,7 +312,8 @@ def classify(case, r, profile, graphs):
     schema = case.get("schema")
     if v == "PANIC":
         f, ln, msg = panic_site(r["detail"])
-        code = src_line(f, ln) if f.startswith(common.REPO) else ""
+        # the location is the absolute path of the source the driver was compiled from
+        code = src_line(f, ln) if "/src/validator/" in f else ""
         if "/uriparse-" in f and case["ep"] in ("J", "C", "V"):
             return "kf-c05-uri-dependency-panic"
         if f.endswith("src/validator/json.rs") and "attempt to multiply with overflow" in msg and "n * 1000" in code \
@@ -361,7 +362,7 @@ def classify(case, r, profile, graphs):
             return "kf-c05-abnf-left-recursion-stack"
         if v in ("TIMEOUT", "HANG"):
             acyc, _, calls = graphs.q.get((schema, "root", None), (False, "?", 0))
-            if acyc and calls >= (1 << 22):
+            if acyc and calls >= (1 << 17):
                 return "kf-c05-exponential-choice-paths"
     return None
 
@@ -936,10 +937,52 @@ class Tally:
             self.distinct.add(hash(key))
 
 
+def source_digest():
+    import hashlib
+    h = hashlib.sha256()
+    roots = [os.path.join(common.REPO, x) for x in ("src", "Cargo.toml", "Cargo.lock", "cddl.pest", "build.rs")]
+    files = []
+    for r in roots:
+        if os.path.isdir(r):
+            for d, _, fs in os.walk(r):
+                files += [os.path.join(d, f) for f in fs]
+        elif os.path.exists(r):
+            files.append(r)
+    for f in sorted(files):
+        h.update(f.encode())
+        try:
+            h.update(open(f, "rb").read())
+        except OSError:
+            pass
+    return h.hexdigest()
+
+
+def fresh_drivers():
+    """cargo decides by modification times; a source file restored with its old time stamp (or changed with a
+    preserved one) leaves a stale library in the shared target directory.  The drivers of this check are tied to
+    the CONTENT of /repo: when the digest differs from the one of the last build the cddl artifacts are cleaned."""
+    stamp = os.path.join(common.CACHE, "c05_source.digest")
+    dig = source_digest()
+    try:
+        old = open(stamp).read()
+    except OSError:
+        old = ""
+    if old != dig:
+        with common.Lock("cargo"):
+            for prof in (["--release"], []):
+                common.sh(["cargo", "clean", "--offline", "-p", "cddl"] + prof, cwd=os.path.join(common.VERIF, "harness"),
+                          env={"CARGO_TARGET_DIR": common.TARGET}, timeout=600)
+    drv = {"release": common.build_harness("c05"), "debug": common.build_harness("c05", profile="debug")}
+    if old != dig and source_digest() == dig:
+        with open(stamp, "w") as f:
+            f.write(dig)
+    return drv
+
+
 def run(tier, seed):
     res = Result(PROP, tier, seed)
     proved = common.prove(res, PROP, PROP_FILE, ["theories/Extract/ExtractRobust.vo"])
-    drv = {"release": common.build_harness("c05"), "debug": common.build_harness("c05", profile="debug")}
+    drv = fresh_drivers()
     orc = common.build_oracle("robust", ["robust_model"])
     graphs = Graphs(drv["release"], orc)
     rng = random.Random(seed)
